@@ -532,6 +532,10 @@ class ApiWorld(ClientWorld):
         now = self.clock.seconds()
         for c in self.calls:
             bound = c.timeout_bound
+            if c.api in ("metadata", "coordinator"):
+                # broker-agnostic calls walk over brokers and bootstrap hosts: the per-request bound does not
+                # apply to the call as a whole (they must still resolve: see finish)
+                bound = 1e9
             if not c.fired and now > c.time + bound + 1e-9:
                 self.viol("timeout", "call-unresolved-after-timeout:%s" % c.api,
                           "call %d (%s) issued at t=%.3f is still pending at t=%.3f, bound %.1f s" % (
